@@ -12,6 +12,9 @@ import RedisVerif.Lemmas.Redis
   * `absP_update` — a state that differs from `cs` only at key `k` has `absP = setAt k (entryAt · k)`;
   * `purge_insert` / `purge_erase` — the same shape on M7's side.
 -/
+set_option linter.unusedSimpArgs false
+set_option linter.unusedVariables false
+
 namespace RedisVerif.Executor
 open RedisVerif RedisVerif.Redis
 
@@ -416,5 +419,104 @@ theorem liveKey_eq {cs : CState} (h : CInv cs) (k : Nat) :
   rw [get_absP h.wfd]
   unfold liveKey entryAt
   cases isExpired cs k <;> simp
+
+/-! ### machine arithmetic inside the ranges the invariant guarantees -/
+
+theorem asI64_small {n : Nat} (h : n ≤ 9223372036854775807) : asI64 n = (n : Int) := by
+  unfold asI64
+  have e : i64Max = 9223372036854775807 := rfl
+  rw [if_pos (by omega)]
+
+theorem sat_id {i : Int} (h1 : -9223372036854775808 ≤ i) (h2 : i ≤ 9223372036854775807) : sat i = i := by
+  unfold sat
+  have e : i64Max = 9223372036854775807 := rfl
+  have e' : i64Min = -9223372036854775808 := rfl
+  rw [if_neg (by omega), if_neg (by omega)]
+
+theorem asU64_nonneg {i : Int} (h : 0 ≤ i) : asU64 i = i.toNat := by
+  unfold asU64
+  simp [h]
+
+theorem basetime_eq {cs : CState} (h : CInv cs) : basetimeMs cs = ((unix cs : Nat) : Int) := by
+  unfold basetimeMs unix
+  have := h.timeOk
+  rw [asI64_small (by omega), sat_id (by omega) (by omega)]
+  omega
+
+theorem inI64_iff (i : Int) : inI64 i = true ↔ (-9223372036854775808 ≤ i ∧ i ≤ 9223372036854775807) := by
+  unfold inI64
+  have e : i64Max = 9223372036854775807 := rfl
+  have e' : i64Min = -9223372036854775808 := rfl
+  rw [Bool.and_eq_true, decide_eq_true_eq, decide_eq_true_eq, e, e']
+
+/-! ### more map algebra -/
+
+theorem insert_insert {s : State} (hw : NMap.WF s) (k : Nat) (e e' : Entry) :
+    NMap.insert k e (NMap.insert k e' s) = NMap.insert k e s := by
+  apply NMap.ext (NMap.wf_insert (NMap.wf_insert hw)) (NMap.wf_insert hw)
+  intro k'
+  simp only [NMap.get_insert]
+  split <;> rfl
+
+theorem erase_insert {s : State} (hw : NMap.WF s) (k : Nat) (e : Entry) :
+    NMap.erase k (NMap.insert k e s) = NMap.erase k s := by
+  apply NMap.ext (NMap.wf_erase (NMap.wf_insert hw)) (NMap.wf_erase hw)
+  intro k'
+  simp only [NMap.get_erase (NMap.wf_insert hw), NMap.get_erase hw, NMap.get_insert]
+  split <;> rfl
+
+theorem insert_self {s : State} (hw : NMap.WF s) {k : Nat} {e : Entry} (h : NMap.get s k = some e) :
+    NMap.insert k e s = s := by
+  have := setAt_self hw k
+  rw [h] at this
+  exact this
+
+theorem erase_none {s : State} (hw : NMap.WF s) {k : Nat} (h : NMap.get s k = none) :
+    NMap.erase k s = s := by
+  have := setAt_self hw k
+  rw [h] at this
+  exact this
+
+/-! ### deadline operations on a key that is present and not past its deadline
+    (the shapes `execute_set` after its `data.insert`, `execute_getex`, `execute_expire*`, `persist` share) -/
+
+section deadline
+variable {c : CState} {k : Nat} {w : Value}
+
+/-- `expirations.insert(k, d)` -/
+theorem dl_set (h : CInv c) (hv : NMap.get c.data k = some w) (d : Nat) :
+    absP { c with exp := NMap.insert k d c.exp } =
+      purge (NMap.insert k ⟨w, some (d + c.epoch)⟩ (absP c)) (unix c) := by
+  rw [upd_exp h hv, purge_insert (wf_absP h.wfd), purge_absP]
+  congr 1
+  simp only [live, unix]
+  by_cases hd : d ≤ c.now
+  · have : ¬ (c.epoch + c.now < d + c.epoch) := by omega
+    simp [hd, this]
+  · have : c.epoch + c.now < d + c.epoch := by omega
+    simp [hd, this]
+
+/-- `data.remove(k); expirations.remove(k)` = storing a deadline that has been reached -/
+theorem dl_drop (h : CInv c) {t : Nat} (ht : t ≤ unix c) :
+    absP (dropKey c k) = purge (NMap.insert k ⟨w, some t⟩ (absP c)) (unix c) := by
+  rw [upd_drop h, purge_insert (wf_absP h.wfd), purge_absP]
+  have : ¬ (unix c < t) := by omega
+  simp [live, this, setAt]
+
+/-- `expirations.remove(k)` -/
+theorem dl_clear (h : CInv c) (hv : NMap.get c.data k = some w) :
+    absP { c with exp := NMap.erase k c.exp } =
+      purge (NMap.insert k ⟨w, none⟩ (absP c)) (unix c) := by
+  rw [upd_persist h hv, purge_insert (wf_absP h.wfd), purge_absP]
+  simp [live, setAt]
+
+/-- nothing -/
+theorem dl_keep (h : CInv c) (hv : NMap.get c.data k = some w) (hx : isExpired c k = false) :
+    absP c = purge (NMap.insert k ⟨w, (NMap.get c.exp k).map (· + c.epoch)⟩ (absP c)) (unix c) := by
+  have hg : NMap.get (absP c) k = some ⟨w, (NMap.get c.exp k).map (· + c.epoch)⟩ := by
+    rw [get_absP h.wfd, entryAt_live hx, hv]; rfl
+  rw [insert_self (wf_absP h.wfd) hg, purge_absP]
+
+end deadline
 
 end RedisVerif.Executor
